@@ -136,7 +136,8 @@ def run(ctx):
     ctx.instance(R3, "Heartbeat[wrong TestReqID => Logout]", bool(treq_true),
                  "a Heartbeat echoing a wrong TestReqID while a TestRequest is outstanding does not lead to a Logout", loc(hb))
     finals = [o for o in outs if o[1].kind == "HEARTBEAT" and o[1].hbt == "mismatch" and o[1].state0 == "ACTIVE" and o[1].ord == "EQ" and o[1].integ == "ok"
-              and o[0] == "return" and any(f"_test_req_id != {echo}: true" in t for t in o[3])]
+              and o[0] == "return" and any(f"_test_req_id != {echo}: true" in t or f"_test_req_id == {echo}: false" in t
+                                           or f"{echo} != self._test_req_id: true" in t or f"{echo} == self._test_req_id: false" in t for t in o[3])]
     ok = bool(finals) and all(o[1].state in DOWN for o in finals)
     ctx.instance(R3, "Heartbeat[wrong TestReqID => disconnected]", ok, "after a Heartbeat with a wrong TestReqID the session is not disconnected", loc(hb))
     match = [e for e in evs_for("match") if e.site == "treq_write" and e.info[1] == "clear" and e.info[0].endswith("_process_heartbeat")]
